@@ -8,6 +8,8 @@ func runOther(cfg *RunConfig, rc *Recorder, res *Result) error {
 	switch cfg.Engine {
 	case "C":
 		return runEngineC(cfg, rc, res)
+	case "D":
+		return runEngineD(cfg, rc, res)
 	}
 	return fmt.Errorf("engine %q not implemented", cfg.Engine)
 }
